@@ -11,3 +11,4 @@ open GlueVerif.C20
 #print axioms iterLoop_eq_prod
 #print axioms iterateChunksLoop_partition
 #print axioms iterateChunksLoop_nmax
+#print axioms GlueVerif.C20.derived_codes_spec
